@@ -133,7 +133,10 @@ def partition_digest(partition):
     return hash(tuple(out))
 
 
-def algo_digest(algo, _depth=0):
+REGISTERS = frozenset(("path", "curr_node", "best_arm", "max_b_node_ind", "max_b_node_h"))
+
+
+def algo_digest(algo, _depth=0, registers=True):
     """Canonical digest of the observable state of an algorithm object: scalar
     attributes, its partition tree(s), nested learners."""
     from PyXAB.partition.Partition import Partition
@@ -143,16 +146,16 @@ def algo_digest(algo, _depth=0):
     d = algo.__dict__
     for k in sorted(d):
         v = d[k]
-        if k.startswith("_xmc"):
+        if k.startswith("_xmc") or (not registers and k in REGISTERS):
             continue
         if isinstance(v, Partition):
             items.append((k, partition_digest(v)))
         elif isinstance(v, Algorithm):
             if _depth < 3:
-                items.append((k, algo_digest(v, _depth + 1)))
+                items.append((k, algo_digest(v, _depth + 1, registers)))
         elif isinstance(v, list) and v and isinstance(v[0], Algorithm):
             if _depth < 3:
-                items.append((k, tuple(algo_digest(a, _depth + 1) for a in v)))
+                items.append((k, tuple(algo_digest(a, _depth + 1, registers) for a in v)))
         elif isinstance(v, dict):
             # Zooming: dicts keyed by arm objects, insertion ordered
             vals = []
